@@ -21,7 +21,9 @@ REFLECTION = ["fcp.specs.type:NumericType.reflection", "fcp.specs.type:StringTyp
               "fcp.specs.type:StructType.reflection", "fcp.specs.type:ArrayType.reflection", "fcp.specs.type:DynamicArrayType.reflection",
               "fcp.specs.type:OptionalType.reflection", "fcp.specs.metadata:MetaData.reflection",
               "fcp.specs.struct_field:StructField.reflection", "fcp.specs.enum:Enumeration.reflection",
-              "fcp.specs.signal_block:SignalBlock.reflection", "fcp.specs.impl:Impl.reflection"]
+              "fcp.specs.signal_block:SignalBlock.reflection", "fcp.specs.impl:Impl.reflection",
+              "fcp.specs.struct:Struct.reflection", "fcp.specs.enum:Enum.reflection", "fcp.specs.method:Method.reflection",
+              "fcp.specs.service:Service.reflection", "fcp.specs.v2:encode_version", "fcp.specs.v2:FcpV2.reflection"]
 
 CODEC_TRUSTED = [
     "CPython int semantics as encoded by PyVC (mathematical integers, floor division, shifts as *2^k and div 2^k)",
@@ -168,29 +170,38 @@ PLANS = {
         "targets": REFLECTION,
         "native": "reflect",
         "trusted": [
-            "the serialisation half (the record conforms to the reflection schema and round-trips through the codec) is NOT proved: it needs the "
-            "codec theorem C01, whose decoder-side struct loop and spec-level lemma are still undischarged",
-            "reflection() of FcpV2, Struct, Enum, Service, Method (list comprehensions calling the element contracts) are not under contract",
-            "SignalBlock/Impl option dicts are open dicts: only `every called method exists and nothing but ValueError is raised` is proved for them",
+            "the serialisation half (the record conforms to the built-in reflection schema and round-trips through the codec) is NOT proved: "
+            "it is the codec theorem C01 instantiated at the concrete reflection schema, which needs that schema as SMT facts",
+            "str() of a non-string option value is an uninterpreted function py.str (identity on strings, decimal numeral on integers)",
+            "dict.items() of an open options dict is an unknown list of (key, value) pairs, a function of the dict (declaration order is "
+            "CPython's insertion order)",
+            "the version string is the class default '3.0' (the parser never sets it); version_ok('3.0') is checked natively",
         ],
-        "explanation": "faithfulness half of the statement for the node kinds under contract: the type chain of every type constructor is proved "
-                       "equal to the flattened chain type_chain(t) of the spec (outermost first, with names, kinds and sizes), StructField / "
-                       "Enumeration / MetaData records are proved to carry exactly the declared values, and Impl.reflection is proved to call only "
-                       "methods that exist (the `refection` typo was found by this obligation and fixed)",
+        "explanation": "faithfulness half of the statement, for every node kind: FcpV2.reflection() is proved to return a record r with "
+                       "is_fcp_rec(r, fcp) (spec/reflect.py): exactly the keys tag/version/structs/enums/impls/services; one record per struct, "
+                       "enum, binding and service in declaration order; per struct one record per field with name, id, flattened type chain "
+                       "(type_chain, outermost first), unit, range and source position; per enum its enumerators; per binding its extension "
+                       "fields and signal blocks as {name, str(value)} pairs; per service its methods.  Each reflection() method is verified "
+                       "against the record predicate of its node kind; a comprehension that calls an element's reflection() is cut at that "
+                       "element's contract (result = skolem function of the element, postcondition stated per index of the source list).",
     },
     "C15": {
-        "targets": ["fcp.serde:_encode_struct", "fcp.encoding:PackedEncoder._generate_struct", "fcp.specs.v2:FcpV2.get_struct",
-                    "fcp.serde:_encode", "fcp.serde:encode"],
+        "targets": sorted(set(ENCODERS + ENCODING + ["fcp.serde:_decode_struct", "fcp.serde:_decode", "fcp_dbc.dbc_writer:_make_signals"]),
+                          key=lambda t: (ENCODERS + ENCODING + ["fcp.serde:_decode_struct", "fcp.serde:_decode", "fcp_dbc.dbc_writer:_make_signals"]).index(t)),
         "native": "codec",
         "trusted": [
             "prelude fact: sorted(xs, key=field_id) depends only on the multiset of xs when ids are distinct (so two declaration orders of the "
             "same fields give the same sorted list) - not machine-proved",
-            "the decoder's struct loop (_decode_struct) also iterates sorted(...) but its inductive step is not discharged; DBC and C signal "
-            "tables are functions of the layout (C05); the C++ templates are not reachable (see C03)",
+            "the step from `every result mentions the declaration order only through sorted_fields` to `permuted twins give equal results` is "
+            "an argument over two runs (a hyperproperty): it is read off the contracts, not proved as a lemma",
+            "DBC signal tables are a function of the layout (C05: _make_signals maps piece i to signal i); the generated C reads the same "
+            "layout (C06); the C++ templates are not reachable (see C03)",
         ],
-        "explanation": "the Python encoder and the packed layout are proved to walk sorted(struct.fields, key=field_id): their results are "
-                       "wire_fields(sorted_fields(s), ...) / struct_names(sorted_fields(s), ...), which mention the declaration order only through "
-                       "sorted_fields",
+        "explanation": "the Python encoder, the Python decoder and every member of the packed layout (struct walk, array unrolling, compound "
+                       "types) are proved to walk sorted(struct.fields, key=field_id): their results are wire_fields(sorted_fields(s), ...) / "
+                       "starts_fields(sorted_fields(s), ...) / struct_names(sorted_fields(s), ...), which mention the declaration order only "
+                       "through sorted_fields.  A change that walks struct.fields in another order anywhere in these cones fails the "
+                       "function's own postcondition.",
     },
     "C16": {
         "targets": ["fcp.serde:_Buffer.get_bit", "fcp.serde:_Buffer.read_word"] + [d for d in DECODERS_PROVED if d not in ("fcp.serde:_decode",)]
